@@ -448,6 +448,7 @@ func (P *Program) analyseInits() error {
 			e := newExec(P)
 			e.rootFn = initFn
 			e.initMode = true
+			e.forceInline = true
 			e.mute = 1
 			defer func() {
 				if r := recover(); r != nil {
@@ -478,23 +479,31 @@ func (P *Program) analyseInits() error {
 					continue
 				}
 				T := g.Type().(*types.Pointer).Elem()
-				if !isInteger(T) && !isBoolean(T) {
+				if len(P.lay.slots(T)) == 0 || len(P.lay.slots(T)) > 64 {
+					continue
+				}
+				if _, isI := T.Underlying().(*types.Interface); isI {
 					continue
 				}
 				if !globalIsConstant(sp, g, initFn) {
 					continue
 				}
 				a := e.globalAddr(g)
-				v := e.loadFrom(outs[0].st.h, a, T)
 				var vals []uint64
 				okc := true
-				for _, t := range v {
+				for i, k := range P.lay.slots(T) {
+					t := e.read(outs[0].st.h[k.heapIdx()], e.c.Add(a, e.c.Const(64, uint64(i))))
+					if t.Op == OSelect && t.Args[0] == e.base[k.heapIdx()] {
+						// never written by init: package-level variables start zeroed
+						t = e.c.Const(k.width(), 0)
+					}
 					if !t.IsConst() {
 						okc = false
 						break
 					}
 					vals = append(vals, t.C)
 				}
+				v := []*Term{e.c.True}
 				if os.Getenv("KVC_DEBUG") != "" {
 					fmt.Fprintf(os.Stderr, "  global %s: const=%v %v\n", g.Name(), okc, e.c.Show(v[0]))
 				}
@@ -505,6 +514,34 @@ func (P *Program) analyseInits() error {
 		}()
 	}
 	return nil
+}
+
+// onlyLoaded: an address derived from a global is used for reading only.
+func onlyLoaded(v ssa.Value) bool {
+	refs := v.Referrers()
+	if refs == nil {
+		return false
+	}
+	for _, r := range *refs {
+		switch x := r.(type) {
+		case *ssa.UnOp:
+			if x.Op != token.MUL {
+				return false
+			}
+		case *ssa.FieldAddr:
+			if !onlyLoaded(x) {
+				return false
+			}
+		case *ssa.IndexAddr:
+			if !onlyLoaded(x) {
+				return false
+			}
+		case *ssa.DebugRef:
+		default:
+			return false
+		}
+	}
+	return true
 }
 
 // globalIsConstant: outside init the global is only ever loaded.
@@ -521,6 +558,15 @@ func globalIsConstant(sp *ssa.Package, g *ssa.Global, initFn *ssa.Function) bool
 						continue
 					}
 					if u, isLoad := in.(*ssa.UnOp); isLoad && u.Op == token.MUL {
+						continue
+					}
+					if fa, isFA := in.(*ssa.FieldAddr); isFA && onlyLoaded(fa) {
+						continue
+					}
+					if ia, isIA := in.(*ssa.IndexAddr); isIA && onlyLoaded(ia) {
+						continue
+					}
+					if _, isDbg := in.(*ssa.DebugRef); isDbg {
 						continue
 					}
 					ok = false
